@@ -111,6 +111,7 @@ def main():
                 print(sid, c, rc, line[0] if line else "-", flush=True)
         finally:
             sh(["git", "-C", REPO, "checkout", "--", "."])
+            sh(["git", "-C", REPO, "clean", "-fdq"])      # files the patch added
             shutil.rmtree(os.path.join(RUNV, "replays"), ignore_errors=True)
             if RUNV == VERIF:
                 sh(["git", "checkout", "--", "evidence"], cwd=VERIF)
